@@ -159,9 +159,41 @@ def origin_text(v):
     return None
 
 
+def native_open_kinds(ck):
+    """standing native runs: the kinds of path and the file shapes the property names, through the real ShmReader::new and the real
+    client (a panic or a wrong kind here is a violation whatever the symbolic part can or cannot encode)"""
+    import struct
+    hdr = lambda seg, ver, gen, magic=(0x414D5A4E, 0x43420200): struct.pack('<IIIHH', magic[0], magic[1], seg, ver, gen)
+    body = b'\0' * 56
+    cases = [('a missing file', 'MISSING', 'SyscallError_errno=2'), ('a directory', 'DIR', 'SyscallError_errno=21'), ('an empty file', '', 'SegmentNotInitialized'),
+             ('a file truncated in the header (10 bytes)', hdr(72, 1, 2)[:10].hex(), 'SegmentNotInitialized'), ('garbage', ('ab' * 72), 'SegmentNotInitialized'),
+             ('a valid segment', (hdr(72, 1, 2) + body).hex(), 'Ok'), ('generation 0', (hdr(72, 1, 0) + body).hex(), 'SegmentNotInitialized'),
+             ('version 0', (hdr(72, 0, 2) + body).hex(), 'SegmentNotInitialized'), ('declared size 40', (hdr(40, 1, 2) + body).hex(), 'SegmentMalformed')]
+    rp = common.Replay('debug')
+    bad = []
+    outs = {}
+    for name, arg, exp in cases:
+        out = rp.ask('open ' + arg)
+        outs[name] = out
+        got = dict(x.split('=', 1) for x in out.split() if '=' in x).get('reader', out)
+        if not got.startswith(exp):
+            bad.append('ShmReader::new on %s returns %s, documented: %s' % (name, got[:160], exp))
+            if 'panic' in got or not out.startswith('reader='):
+                rp.close(); rp = common.Replay('debug')
+    rp.close()
+    ck.cov['native_open_kinds'] = {'cases': len(cases), 'bad': len(bad)}
+    ck.cov['traces_validated_against_impl'] = ck.cov.get('traces_validated_against_impl', 0) + len(cases)
+    if bad:
+        ck.violation('open-outcome', '; '.join(bad[:2]), {'cmd': 'open', 'native': outs})
+    return bad
+
+
 def check_c16(tier, seed):
     ck = Check('C16', tier, seed)
     prog, mir_wall = load_shm_program()
+    if native_open_kinds(ck):
+        ck.cov['functions_encoded'] = ['(native runs only: a documented outcome is already wrong on a concrete file)']
+        return ck.finish()
     om = OpenModel(prog)
     outs = om.run()
     ex = om.ex
